@@ -64,6 +64,8 @@ enum Op {
     DeleteFolder { f: usize },
     Compact { f: usize },
     ChangePassword,
+    /// trust a second (mock) device
+    TrustDevice,
 }
 
 #[derive(Clone, Debug, Serialize, Deserialize)]
@@ -180,6 +182,7 @@ fn sim(st: &mut St, op: &Op) -> Option<()> {
             }
         }
         Op::ChangePassword => st.password += 1,
+        Op::TrustDevice => {}
     }
     Some(())
 }
@@ -224,6 +227,11 @@ fn shapes(tier: Tier) -> Vec<Shape> {
             Op::CustomField { s: 0 },
         ],
     });
+    v.push(Shape {
+        name: "second-device".into(),
+        with_archive: true,
+        ops: vec![Op::Secret { f: 0, kind: "password".into(), variant: 1 }, Op::TrustDevice, Op::Secret { f: 0, kind: "link".into(), variant: 0 }],
+    });
     // base alone, with each kind set
     let nbase = tier.pick(2, kind_sets.len());
     for (i, ks) in kind_sets.iter().enumerate().take(nbase) {
@@ -241,6 +249,13 @@ fn shapes(tier: Tier) -> Vec<Shape> {
                 let mut q = p.clone();
                 q.push(a);
                 let mut ops = base_ops(kind_sets[n % kind_sets.len()]);
+                // quick: blob encryption/decryption costs seconds, so
+                // only the suffixes that touch the file secret (slot 3)
+                // keep the attachment of the base history
+                let touches_file = q.iter().any(|i| matches!(&alpha[*i], Op::Move { s: 3, .. } | Op::DeleteSecret { s: 3 }));
+                if tier == Tier::Quick && !touches_file {
+                    ops.retain(|o| !matches!(o, Op::Attach { .. }));
+                }
                 ops.extend(q.iter().map(|i| alpha[*i].clone()));
                 let sh = Shape {
                     name: format!("base+{}", q.iter().map(|i| i.to_string()).collect::<Vec<_>>().join(".")),
@@ -390,8 +405,16 @@ async fn apply(dev: &mut Dev, st: &mut St, op: &Op, marker: &str, scratch: &Path
             st.password = np;
             dev.password = pw(np);
         }
+        Op::TrustDevice => {
+            let device = sos_test_utils::mock::device()?;
+            acc.patch_devices_unchecked(&[sos_core::events::DeviceEvent::Trust(device)]).await?;
+        }
     }
     Ok(())
+}
+
+async fn device_keys(acc: &LocalAccount) -> Result<BTreeSet<String>> {
+    Ok(acc.trusted_devices().await?.iter().map(|d| hex::encode(d.public_key().as_ref())).collect())
 }
 
 async fn dev_archive(acc: &LocalAccount) -> Option<VaultId> {
@@ -471,7 +494,7 @@ fn items(tier: Tier, shapes: &[Shape]) -> Vec<Item> {
         }
         // the upgrade path for a subset
         let up = match tier {
-            Tier::Quick => i < 5,
+            Tier::Quick => i < 6,
             Tier::Thorough => i % 3 == 0 || i < 8,
         };
         if up {
@@ -497,13 +520,17 @@ fn external_files(folder: &VaultId, row: &SecretRow) -> Vec<(VaultId, SecretId, 
 }
 
 /// Decrypt every external file of the account: "folder/secret/name" -> sha256 of plain bytes.
-async fn attachments_view(acc: &mut LocalAccount) -> Result<BTreeMap<String, String>> {
+async fn attachments_view(acc: &mut LocalAccount, download: bool) -> Result<BTreeMap<String, String>> {
     let mut out = BTreeMap::new();
     for s in acc.list_folders().await? {
         for id in acc.list_secret_ids(s.id()).await? {
             let (row, _) = acc.read_secret(&id, Some(s.id())).await?;
             for (v, sid, name, label) in external_files(s.id(), &row) {
                 let key = format!("{}/{}/{}:{}", v, sid, name, label);
+                if !download {
+                    out.insert(key, "<listed>".into());
+                    continue;
+                }
                 let r = acc.download_file(&v, &sid, &name).await;
                 out.insert(
                     key,
@@ -557,6 +584,35 @@ fn view_diff(a: &AccountView, b: &AccountView) -> Vec<(String, String)> {
         }
     }
     out
+}
+
+/// Tags are a set (HashSet in the implementation): sort every "tags"
+/// array, also inside custom fields.
+fn norm_tags(v: &mut Value) {
+    match v {
+        Value::Object(m) => {
+            for (k, x) in m.iter_mut() {
+                if k == "tags" {
+                    if let Value::Array(a) = x {
+                        a.sort_by_key(|t| t.to_string());
+                    }
+                } else {
+                    norm_tags(x);
+                }
+            }
+        }
+        Value::Array(a) => a.iter_mut().for_each(norm_tags),
+        _ => {}
+    }
+}
+
+fn norm_view(v: &mut AccountView) {
+    for f in v.folders.iter_mut() {
+        for s in f.secrets.iter_mut() {
+            norm_tags(&mut s.1);
+            norm_tags(&mut s.2);
+        }
+    }
 }
 
 /// First path at which two JSON values differ (values abbreviated).
@@ -614,6 +670,8 @@ fn shape_digest(v: &AccountView) -> String {
 }
 
 static LAST_PANIC: Mutex<Option<String>> = Mutex::new(None);
+/// true while the code under test runs under catch_unwind
+static GUARDED: std::sync::atomic::AtomicBool = std::sync::atomic::AtomicBool::new(false);
 
 fn install_panic_hook() {
     std::panic::set_hook(Box::new(|info| {
@@ -625,6 +683,9 @@ fn install_panic_hook() {
         } else {
             "panic".to_string()
         };
+        if !GUARDED.load(std::sync::atomic::Ordering::SeqCst) {
+            eprintln!("archx: harness panic: {} @ {}", msg, loc);
+        }
         if let Ok(mut g) = LAST_PANIC.lock() {
             *g = Some(format!("{} @ {}", msg, loc));
         }
@@ -691,7 +752,10 @@ async fn guarded_import(archive: &Path, target: &BackendTarget, via_account: boo
             sos_backend::archive::import_backup_archive(archive, target).await.map_err(|e| e.to_string())
         }
     };
-    match AssertUnwindSafe(fut).catch_unwind().await {
+    GUARDED.store(true, std::sync::atomic::Ordering::SeqCst);
+    let caught = AssertUnwindSafe(fut).catch_unwind().await;
+    GUARDED.store(false, std::sync::atomic::Ordering::SeqCst);
+    match caught {
         Ok(Ok(v)) => Outcome::Accepted(v),
         Ok(Err(e)) => Outcome::Rejected(e),
         Err(p) => {
@@ -756,7 +820,7 @@ async fn export_for_pair(dev: &Dev, pair: Pair, out_dir: &Path) -> std::result::
     }
 }
 
-async fn run_roundtrip(shapes: &[Shape], it: &Item, wd: &Path, marker: &str, shared: Option<&Path>) -> Value {
+async fn run_roundtrip(shapes: &[Shape], it: &Item, wd: &Path, marker: &str, shared: Option<&Path>, tier: Tier) -> Value {
     let shape = &shapes[it.shape];
     let tag = it.pair.tag();
     let mut fails: Vec<Value> = vec![];
@@ -770,20 +834,31 @@ async fn run_roundtrip(shapes: &[Shape], it: &Item, wd: &Path, marker: &str, sha
         let Built { mut dev, st, nops } = build_account(&src_dir, &scratch, shape, it.pair.src(), marker).await?;
         let account_id = dev.account_id;
         let label = dev.account.account_name().await?;
-        let src_view = account_view(&mut dev.account, true).await?;
-        let src_att = attachments_view(&mut dev.account).await?;
-        // the source attachments decrypt to what was put in
-        let expected_att: BTreeSet<String> = st
+        let mut src_view = account_view(&mut dev.account, true).await?;
+        norm_view(&mut src_view);
+        // quick: the source blobs are listed only (each decryption costs
+        // seconds); the restored ones are compared with the plain bytes
+        // that were put in
+        let src_att = attachments_view(&mut dev.account, tier == Tier::Thorough).await?;
+        let mut expected_att: Vec<String> = st
             .attachments
             .iter()
             .filter(|(slot, _)| st.secrets.get(*slot).map(|s| s.0).unwrap_or(false))
             .map(|(_, b)| fsutil::sha256_hex(b))
             .collect();
-        let got_att: BTreeSet<String> = src_att.values().cloned().collect();
-        if expected_att != got_att {
-            return Err(anyhow!("source account does not serve its own attachments: expected {:?} got {:?}", expected_att, src_att));
+        expected_att.sort();
+        if src_att.len() != expected_att.len() {
+            return Err(anyhow!("source account lists {} external files, {} expected", src_att.len(), expected_att.len()));
+        }
+        if tier == Tier::Thorough {
+            let mut got: Vec<String> = src_att.values().cloned().collect();
+            got.sort();
+            if got != expected_att {
+                return Err(anyhow!("source account does not serve its own attachments: expected {:?} got {:?}", expected_att, src_att));
+            }
         }
         let src_status = status_view(&dev.account.sync_status().await?);
+        let src_devices = device_keys(&dev.account).await?;
         let digest = shape_digest(&src_view);
         let out_dir = wd.join("out");
         std::fs::create_dir_all(&out_dir)?;
@@ -855,7 +930,8 @@ async fn run_roundtrip(shapes: &[Shape], it: &Item, wd: &Path, marker: &str, sha
             Err(e) => {
                 fails.push(json!({"sig": format!("roundtrip:view_unreadable:{}:{}", norm_msg(&e.to_string()).chars().take(60).collect::<String>(), tag), "what": format!("the restored account cannot be read: {}", e)}));
             }
-            Ok(dst_view) => {
+            Ok(mut dst_view) => {
+                norm_view(&mut dst_view);
                 let mut seen = BTreeSet::new();
                 for (clause, detail) in view_diff(&src_view, &dst_view) {
                     if seen.insert(clause.clone()) {
@@ -869,23 +945,43 @@ async fn run_roundtrip(shapes: &[Shape], it: &Item, wd: &Path, marker: &str, sha
                 info.insert("listing_order_preserved".into(), json!(order_same));
             }
         }
-        match attachments_view(&mut dst.account).await {
+        match attachments_view(&mut dst.account, true).await {
             Err(e) => {
                 fails.push(json!({"sig": format!("roundtrip:attachments_unreadable:{}", tag), "what": format!("cannot enumerate the attachments of the restored account: {}", e)}));
             }
             Ok(dst_att) => {
-                if dst_att != src_att {
-                    let missing = src_att.iter().filter(|(k, v)| dst_att.get(*k) != Some(*v)).count();
+                let mut got: Vec<String> = dst_att.values().cloned().collect();
+                got.sort();
+                let same_keys = dst_att.keys().collect::<Vec<_>>() == src_att.keys().collect::<Vec<_>>();
+                if !same_keys || got != expected_att {
                     let unreadable = dst_att.values().any(|v| v.starts_with("<unreadable"));
-                    fails.push(json!({"sig": format!("roundtrip:attachment_{}:{}", if unreadable { "unreadable" } else { "differs" }, tag), "what": format!("{} of {} attachments do not decrypt to the same bytes after restore: source {:?} restored {:?}", missing, src_att.len(), src_att, dst_att)}));
+                    let clause = if unreadable {
+                        "unreadable"
+                    } else if !same_keys {
+                        "set_differs"
+                    } else {
+                        "differs"
+                    };
+                    fails.push(json!({"sig": format!("roundtrip:attachment_{}:{}", clause, tag), "what": format!("the {} attachment(s) do not decrypt to the same bytes after restore: expected plain sha256 {:?}, source lists {:?}, restored {:?}", expected_att.len(), expected_att, src_att.keys().collect::<Vec<_>>(), dst_att)}));
                 }
                 info.insert("attachments".into(), json!(src_att.len()));
             }
         }
+        // trusted devices: not named by C18, reported
+        if let Ok(d) = device_keys(&dst.account).await {
+            info.insert("trusted_devices".into(), json!(format!("{} -> {}{}", src_devices.len(), d.len(), if d == src_devices { "" } else { " (set differs)" })));
+        }
         // event-log commit roots: reported, not required
         if let Ok(s) = dst.account.sync_status().await {
-            let d = status_diff(&src_status, &status_view(&s));
+            let dv = status_view(&s);
+            let d = status_diff(&src_status, &dv);
+            let lens: Vec<String> = d
+                .iter()
+                .filter(|k| *k != "folder")
+                .map(|k| format!("{}:len {} -> {}", k, src_status[k.as_str()]["len"], dv[k.as_str()]["len"]))
+                .collect();
             info.insert("logs_with_different_root_or_length".into(), json!(d));
+            info.insert("log_length_changes".into(), json!(lens));
         }
         dst.close().await;
         Ok(json!({"ops": nops, "digest": digest, "transitions": nops + 3, "complete": true}))
@@ -1355,7 +1451,7 @@ async fn run_case(seed: &Seed, c: &Case, wd: &Path) -> Result<(String, Vec<(Stri
             class = "panic".into();
             fails.push((
                 format!("hostile:{}:panic:{}:{}", c.kind, panic_sig(&p), tag),
-                format!("importing an archive ({}) panicked: {}", desc, p.replace("/repo/", "")),
+                format!("importing an archive ({}) panicked: {}; afterwards the target lists {} account(s)", desc, p.replace("/repo/", ""), listed),
             ));
             if listed > 0 && c.expect == Expect::MustReject {
                 fails.push((format!("hostile:{}:panic_and_account_created:{}:{}", c.kind, c.entry_kind, tag), format!("after the panic the target lists {} account(s) ({})", listed, desc)));
@@ -1391,7 +1487,8 @@ async fn run_case(seed: &Seed, c: &Case, wd: &Path) -> Result<(String, Vec<(Stri
                     // the copy that does not match the checksum must not have been used
                     let r: Result<Vec<(String, String)>> = async {
                         let mut d = Dev::open(&target_dir, backend, seed.account_id, pw(seed.password_idx)).await?;
-                        let v = account_view(&mut d.account, true).await?;
+                        let mut v = account_view(&mut d.account, true).await?;
+                        norm_view(&mut v);
                         d.close().await;
                         Ok(view_diff(&seed.view, &v))
                     }
@@ -1528,7 +1625,7 @@ fn main() {
         let shared = std::env::var("ARCHX_SHARED").ok().map(PathBuf::from);
         let _ = std::env::set_current_dir(wd.path());
         match stage.as_str() {
-            "roundtrip" => pool::worker_loop(|idx| rt.block_on(run_roundtrip(&shapes, &its[idx], &wd.path().join("rt"), &marker, shared.as_deref()))),
+            "roundtrip" => pool::worker_loop(|idx| rt.block_on(run_roundtrip(&shapes, &its[idx], &wd.path().join("rt"), &marker, shared.as_deref(), tier))),
             _ => pool::worker_loop(|idx| rt.block_on(run_hostile_chunk(shared.as_deref().expect("shared"), &hits[idx], tier, wd.path(), None))),
         }
     }
@@ -1556,6 +1653,7 @@ fn main() {
     let mut with_attachments = 0u64;
     let mut log_info: BTreeMap<String, u64> = BTreeMap::new();
     let mut order_changed = 0u64;
+    let mut log_len_info: BTreeMap<String, u64> = BTreeMap::new();
     for (i, r) in res.into_iter().enumerate() {
         let it = &its[i];
         match r {
@@ -1578,6 +1676,14 @@ fn main() {
                 }
                 if v["info"]["listing_order_preserved"].as_bool() == Some(false) {
                     order_changed += 1;
+                }
+                if let Some(t) = v["info"]["trusted_devices"].as_str() {
+                    *log_len_info.entry(format!("trusted devices {} ({})", t, it.pair.tag())).or_default() += 1;
+                }
+                if let Some(a) = v["info"]["log_length_changes"].as_array() {
+                    for l in a {
+                        *log_len_info.entry(format!("{} ({})", l.as_str().unwrap_or("?"), it.pair.tag())).or_default() += 1;
+                    }
                 }
                 if let Some(a) = v["info"]["logs_with_different_root_or_length"].as_array() {
                     for l in a {
@@ -1674,6 +1780,8 @@ fn main() {
     cov.insert("roundtrips_with_attachments".into(), json!(with_attachments));
     cov.insert("roundtrips_where_listing_order_changed".into(), json!(order_changed));
     cov.insert("logs_with_different_root_or_length_after_restore".into(), json!(log_info));
+    cov.insert("log_length_and_device_changes_after_restore".into(), json!(log_len_info));
+    cov.insert("stage1_wall_s".into(), json!(stage1_s));
     cov.insert("hostile_archives".into(), json!(hostile_total));
     cov.insert("hostile_archives_with_checksum_mismatch".into(), json!(must_reject));
     cov.insert("hostile_mutations_by_kind".into(), json!(by_kind));
@@ -1707,7 +1815,7 @@ fn replay(path: &Path, shapes: &[Shape], tier: Tier, marker: &str) -> i32 {
             let shape: Shape = serde_json::from_value(w["shape"].clone()).expect("shape");
             let pair: Pair = serde_json::from_value(w["pair"].clone()).expect("pair");
             let it = Item { shape: 0, pair, seed: None };
-            let r = rt.block_on(run_roundtrip(&[shape], &it, &wd.path().join("rt"), marker, None));
+            let r = rt.block_on(run_roundtrip(&[shape], &it, &wd.path().join("rt"), marker, None, tier));
             println!("run {}: {}", round, r);
             sigs = r["fails"].as_array().map(|a| a.iter().map(|f| f["sig"].as_str().unwrap_or("").to_string()).collect()).unwrap_or_default();
         } else {
@@ -1716,7 +1824,7 @@ fn replay(path: &Path, shapes: &[Shape], tier: Tier, marker: &str) -> i32 {
             let src_pair = if pair == Pair::FsV2 { Pair::FsV2 } else { Pair::DbV3 };
             let it = Item { shape: si, pair: src_pair, seed: Some(0) };
             let shared = wd.path().join("shared");
-            let r = rt.block_on(run_roundtrip(shapes, &it, &wd.path().join("rt"), marker, Some(&shared)));
+            let r = rt.block_on(run_roundtrip(shapes, &it, &wd.path().join("rt"), marker, Some(&shared), tier));
             if r.get("error").is_some() {
                 eprintln!("MACHINERY-ERROR cannot rebuild the seed: {}", r);
                 return 2;
